@@ -734,6 +734,9 @@ func ruleWatermark(c *Ctx, rule string, fn *ssa.Function) {
 		n = watermarkViaHelper(c, rule, fn)
 	}
 	if n == 0 {
+		n = watermarkViaRun(c, rule, fn)
+	}
+	if n == 0 {
 		c.und(rule, funcName(fn)+"/invalid-letter-watermark", fn.Pos(), "no skipped-letter branch found")
 	}
 }
@@ -845,6 +848,148 @@ func watermarkViaHelper(c *Ctx, rule string, fn *ssa.Function) int {
 											default:
 												c.ok(rule, key, call.Pos(), "on the invalid-letter branch "+h.Name()+" returns the letter's position + 1, and the call passes the position the letter was read at")
 											}
+										}
+									}
+								}
+							}
+						}
+					}
+				}
+			}
+		}
+	}
+	return n
+}
+
+// watermarkViaRun: the scanner keeps, instead of a watermark, the number of defined letters read since the last
+// undefined one: the invalid-letter branch resets that count to 0, the valid branch adds 1, and a window is
+// reported only where the count has been found >= k.
+func watermarkViaRun(c *Ctx, rule string, fn *ssa.Function) int {
+	alphaPath := modPath + "/alphabet"
+	pkg := fn.Pkg.Pkg.Path()
+	// the cell in fn behind an address used in g (fn itself or one of its closures)
+	cellOf := func(g *ssa.Function, addr ssa.Value) ssa.Value {
+		fv, ok := addr.(*ssa.FreeVar)
+		if !ok {
+			return addr
+		}
+		for _, b := range fn.Blocks {
+			for _, ins := range b.Instrs {
+				if mc, ok := ins.(*ssa.MakeClosure); ok && mc.Fn == ssa.Value(g) {
+					for i, f := range g.FreeVars {
+						if f == fv {
+							return mc.Bindings[i]
+						}
+					}
+				}
+			}
+		}
+		return addr
+	}
+	n := 0
+	for _, g := range append([]*ssa.Function{fn}, fn.AnonFuncs...) {
+		for _, b := range g.Blocks {
+			for _, ins := range b.Instrs {
+				ia, ok := ins.(*ssa.IndexAddr)
+				if !ok || !isNamed(ia.X.Type(), alphaPath, "Index") {
+					continue
+				}
+				for _, r := range *ia.Referrers() {
+					v, ok := r.(*ssa.UnOp)
+					if !ok || v.Op != token.MUL {
+						continue
+					}
+					for _, rr := range *v.Referrers() {
+						bo, ok := rr.(*ssa.BinOp)
+						if !ok {
+							continue
+						}
+						for _, r3 := range *bo.Referrers() {
+							ifi, ok := r3.(*ssa.If)
+							if !ok {
+								continue
+							}
+							f, ok := condFact(ifi.Cond, sameValue(v))
+							if !ok {
+								continue
+							}
+							neg := -1
+							if lowerBound([]cmpFact{f}, -1) >= 0 {
+								neg = 1
+							} else {
+								nf := f
+								nf.op = negateOp(f.op)
+								if lowerBound([]cmpFact{nf}, -1) >= 0 {
+									neg = 0
+								}
+							}
+							if neg < 0 {
+								continue
+							}
+							nb, vb := ifi.Block().Succs[neg], ifi.Block().Succs[1-neg]
+							// cells reset to 0 on the invalid branch and stepped by 1 on the valid one
+							for _, ni := range nb.Instrs {
+								st, ok := ni.(*ssa.Store)
+								if !ok {
+									continue
+								}
+								if k, isK := constIntVal(st.Val); !isK || k != 0 {
+									continue
+								}
+								if pt, ok := st.Addr.Type().Underlying().(*types.Pointer); !ok || !isIntegral(pt.Elem()) || isNamed(pt.Elem(), pkg, "Kmer") {
+									continue
+								}
+								stepped := false
+								for _, vi := range vb.Instrs {
+									if s2, ok := vi.(*ssa.Store); ok && s2.Addr == st.Addr {
+										if add, ok := s2.Val.(*ssa.BinOp); ok && add.Op == token.ADD {
+											if k, isK := constIntVal(add.Y); isK && k == 1 {
+												if ld, ok := add.X.(*ssa.UnOp); ok && ld.X == st.Addr {
+													stepped = true
+												}
+											}
+										}
+									}
+								}
+								if !stepped {
+									continue
+								}
+								cell := cellOf(g, st.Addr)
+								// the report is made where count >= k
+								var cb *ssa.Parameter
+								for _, p := range fn.Params {
+									if _, ok := p.Type().Underlying().(*types.Signature); ok {
+										cb = p
+									}
+								}
+								for _, fb := range fn.Blocks {
+									for _, fi := range fb.Instrs {
+										call, ok := fi.(*ssa.Call)
+										if !ok || cb == nil || call.Call.Value != ssa.Value(cb) {
+											continue
+										}
+										n++
+										key := fmt.Sprintf("%s/invalid-letter-watermark#%d", funcName(fn), n)
+										guarded := false
+										for _, bf := range branchesAt(fb) {
+											isCount := func(x ssa.Value) bool {
+												ld, ok := x.(*ssa.UnOp)
+												return ok && ld.Op == token.MUL && ld.X == cell
+											}
+											isK := func(x ssa.Value) bool {
+												return loadOfField(x, pkg, "Index", "k")
+											}
+											if isCount(bf.cond.X) && isK(bf.cond.Y) && effectiveOp(bf, true) == token.GEQ {
+												guarded = true
+											}
+											if isK(bf.cond.X) && isCount(bf.cond.Y) && effectiveOp(bf, false) == token.GEQ {
+												guarded = true
+											}
+										}
+										if guarded {
+											c.ok(rule, key, call.Pos(), "the count of defined letters is reset to 0 by an undefined letter and a window is reported only once it has reached k again")
+										} else {
+											c.bad(rule, key, call.Pos(), "the count of defined letters since the last undefined one is kept, but the report is not made under count >= k: a window containing the undefined letter is reported, as a k-mer with the letter read as index 0")
 										}
 									}
 								}
